@@ -63,7 +63,7 @@ Variable K : pmat.
 Variable Sk : nat -> list Z.               (* target secret family, Sk 0 = 1 *)
 Variables (s_in : nat -> list Z) (e I : nat -> nat -> list Z).
 Hypothesis Ha : wf_cols n rin a_size a.
-Hypothesis HK : wf_pmat n K.
+Hypothesis HK : wf_pmat_in n (dnum * rin) (msize * cols_out) K.
 Hypothesis Hd : (1 <= dsize)%nat.
 Hypothesis Hdrop : (dsize - 2 <= msize)%nat.
 Hypothesis HS : forall co, length (Sk co) = n.
@@ -88,7 +88,7 @@ Proof.
   exists res. split; [exact E1|]. split; [exact E2|].
   rewrite (phase_f_ext P b n cols_out msize (limbs_of res)
              (gp_spec n rin cols_out msize a_size dsize dnum true (acol n a) K) Sk) by (intros; apply E3; assumption).
-  apply gadget_phase_rows; try assumption.
+  apply gadget_phase_rows_in; try assumption.
   - apply (acol_length n rin a_size a Ha).
   - apply (acol_zero n rin a_size a Ha).
 Qed.
@@ -101,7 +101,7 @@ Variable K : pmat.
 Variable Sk : nat -> list Z.
 Variables (s_in : nat -> list Z) (e I : nat -> nat -> list Z).
 Hypothesis Hct : wf_cols n (S rin) a_size ct.
-Hypothesis HK : wf_pmat n K.
+Hypothesis HK : wf_pmat_in n (dnum * rin) (msize * cols_out) K.
 Hypothesis Hn : (1 <= n)%nat.
 Hypothesis Hco : (1 <= cols_out)%nat.
 Hypothesis Hd : (1 <= dsize)%nat.
@@ -290,7 +290,7 @@ Variable K : pmat.
 Variables (Sk St : nat -> list Z).
 Variables (s_in : nat -> list Z) (e I : nat -> nat -> list Z).
 Hypothesis Hct : wf_cols n (S rin) a_size ct.
-Hypothesis HK : wf_pmat n K.
+Hypothesis HK : wf_pmat_in n (dnum * rin) (msize * cols_out) K.
 Hypothesis Hn : (1 <= n)%nat.
 Hypothesis Hco : (1 <= cols_out)%nat.
 Hypothesis Hd : (1 <= dsize)%nat.
@@ -332,3 +332,158 @@ Proof.
 Qed.
 End C03Auto.
 
+(* ------------------------------------------------------------------------------------------------------------ *)
+(* link to the executable spec-level values of Model/Gadget.v : poly_val = pval, phase_val = phase_f under sk_ext *)
+Section ValueLink.
+Variables (P b : Z) (n : nat).
+
+Let step := fun (s : list Z * Z) (l : list Z) => (padd (fst s) (pscale (2 ^ (P - (snd s + 1) * b)) l), snd s + 1).
+
+Lemma poly_fold_snd l a k : snd (fold_left step l (a, k)) = k + Z.of_nat (length l).
+Proof.
+  revert a k; induction l as [|x l IH]; intros a k; cbn [fold_left length]; [cbn [snd]; lia|].
+  unfold step at 2. cbn [fst snd]. rewrite IH. lia.
+Qed.
+
+Lemma poly_val_app l x :
+  poly_val P b n (l ++ [x]) = padd (poly_val P b n l) (pscale (2 ^ (P - (Z.of_nat (length l) + 1) * b)) x).
+Proof.
+  unfold poly_val. fold step. rewrite fold_left_app. cbn [fold_left]. unfold step at 1. cbn [fst].
+  pose proof (poly_fold_snd l (pzero n) 0) as E. rewrite Z.add_0_l in E. rewrite E. reflexivity.
+Qed.
+
+Theorem poly_val_pval (l : plimbs) : poly_val P b n l = pval P b n (lim l) (length l).
+Proof.
+  induction l as [|x l IH] using rev_ind; [reflexivity|].
+  rewrite poly_val_app, IH, app_length. cbn [length]. rewrite Nat.add_1_r. unfold pval. rewrite psumf_S.
+  f_equal.
+  - apply psumf_ext; intros j Hj. f_equal. unfold lim. symmetry. apply app_nth1; exact Hj.
+  - f_equal. unfold lim. rewrite app_nth2 by lia. rewrite Nat.sub_diag. reflexivity.
+Qed.
+
+Lemma fold_left_map' {X Y Z'} (f : X -> Y -> X) (g : Z' -> Y) l a : fold_left f (map g l) a = fold_left (fun x z => f x (g z)) l a.
+Proof. revert a; induction l as [|h l IH]; intros a; cbn [map fold_left]; [reflexivity|apply IH]. Qed.
+
+Lemma fold_combine_seq (F : plimbs -> list Z -> list Z) (l1 : list plimbs) (l2 : list (list Z)) d2 init :
+  length l1 = length l2 ->
+  fold_left (fun acc p => padd acc (F (fst p) (snd p))) (combine l1 l2) init
+  = fold_left (fun acc i => padd acc (F (nth i l1 []) (nth i l2 d2))) (seq 0 (length l2)) init.
+Proof.
+  revert l2 init; induction l1 as [|x l1 IH]; intros [|y l2] init H; cbn [length] in H; try lia; [reflexivity|].
+  cbn [combine fold_left length seq fst snd nth]. rewrite IH by lia.
+  rewrite <- seq_shift, fold_left_map'. reflexivity.
+Qed.
+
+Lemma fold_padd_psumf (G : nat -> list Z) m init : length init = n -> (forall i, (i < m)%nat -> length (G i) = n) ->
+  fold_left (fun acc i => padd acc (G i)) (seq 0 m) init = padd init (psumf n G m).
+Proof.
+  intros Hi HG. induction m as [|m IH]; [rewrite psumf_0, padd_pzero_r by exact Hi; reflexivity|].
+  rewrite seq_S, fold_left_app, IH by auto with arith. cbn [fold_left Nat.add]. rewrite psumf_S. apply padd_assoc.
+Qed.
+
+(* Gadget.phase_val is phase_f under the secret family (1, s_0, s_1, ...) *)
+Theorem phase_val_phase_f (sk : list (list Z)) (ct : cols_t) size :
+  (1 <= n)%nat -> wf_cols n (S (length sk)) size ct -> (forall i, (i < length sk)%nat -> length (nth i sk (pzero n)) = n) ->
+  phase_val P b n sk ct = phase_f P b n (S (length sk)) size (limbs_of ct) (sk_ext n sk).
+Proof.
+  intros Hn [Hl Hc] Hsk. unfold phase_val, phase_f.
+  assert (Hcol : forall co, (co < S (length sk))%nat -> poly_val P b n (col ct co) = pval P b n (limbs_of ct co) size).
+  { intros co Hco. rewrite poly_val_pval. destruct (Hc co Hco) as [-> _]. reflexivity. }
+  assert (Lcol : forall co, (co < S (length sk))%nat -> length (pval P b n (limbs_of ct co) size) = n).
+  { intros co Hco. apply pval_length. intros j Hj. apply (Hc co Hco); exact Hj. }
+  assert (Htl : length (tl ct) = length sk) by (destruct ct; cbn [length tl] in *; lia).
+  rewrite (fold_combine_seq (fun c s => pmul (poly_val P b n c) s) (tl ct) sk (pzero n)) by exact Htl.
+  rewrite (fold_padd_psumf (fun i => pmul (poly_val P b n (nth i (tl ct) [])) (nth i sk (pzero n)))).
+  - rewrite psumf_shift.
+    + f_equal.
+      * cbn [sk_ext]. change (pone_n n) with (pone n). rewrite pmul_pone_r by (try apply Lcol; lia). apply Hcol; lia.
+      * apply psumf_ext; intros i Hi. cbn [sk_ext]. f_equal.
+        replace (nth i (tl ct) []) with (col ct (S i)) by (destruct ct; [destruct i|]; reflexivity). apply Hcol; lia.
+    + intros co Hco. rewrite pmul_length. apply Lcol; exact Hco.
+  - rewrite Hcol by lia. apply Lcol; lia.
+  - intros i Hi. rewrite pmul_length.
+    replace (nth i (tl ct) []) with (col ct (S i)) by (destruct ct; [destruct i|]; reflexivity). rewrite Hcol by lia. apply Lcol; lia.
+Qed.
+End ValueLink.
+
+Section SkExt.
+Lemma sk_ext_length n sk : (1 <= n)%nat -> (forall s, In s sk -> length s = n) -> forall co, length (sk_ext n sk co) = n.
+Proof.
+  intros Hn H [|i]; cbn [sk_ext]; [apply (pone_length n Hn)|].
+  destruct (Nat.lt_ge_cases i (length sk)) as [G|G]; [apply H, nth_In, G|].
+  rewrite nth_overflow by exact G. apply pzero_length.
+Qed.
+End SkExt.
+
+(* (3b) stated with Gadget.phase_val : output secret sk_out (rank_out polynomials), Sk = (1, sk_out) *)
+Section C03PhaseVal.
+Variables (P b : Z) (n rin msize a_size dsize dnum : nat).
+Variable ct : cols_t.
+Variable K : pmat.
+Variable sk_out : list (list Z).
+Variables (s_in : nat -> list Z) (e I : nat -> nat -> list Z).
+Let cols_out := S (length sk_out).
+Let Sk := sk_ext n sk_out.
+Hypothesis Hct : wf_cols n (S rin) a_size ct.
+Hypothesis HK : wf_pmat_in n (dnum * rin) (msize * cols_out) K.
+Hypothesis Hn : (1 <= n)%nat.
+Hypothesis Hd : (1 <= dsize)%nat.
+Hypothesis Hdrop : (dsize - 2 <= msize)%nat.
+Hypothesis Hsk : forall s, In s sk_out -> length s = n.
+Hypothesis Hsin : forall ci, length (s_in ci) = n.
+Hypothesis He : forall row ci, length (e row ci) = n.
+Hypothesis HI : forall row ci, length (I row ci) = n.
+Hypothesis Hb : 0 <= b.
+Hypothesis HP : Z.of_nat msize * b <= P.
+Hypothesis HP2 : Z.of_nat dnum * Z.of_nat dsize * b <= P.
+Hypothesis key_row : key_rows_ok P b n rin cols_out msize dsize dnum K Sk s_in e I.
+
+Theorem C03_keyswitch_internal_phase_val_lemma :
+  exists ks, keyswitch_internal n cols_out msize (zcols n cols_out msize) ct a_size dsize dnum msize K = Some ks /\
+    phase_val P b n sk_out ks
+    = padd (padd (padd (pval P b n (acol n ct 0) (Nat.min msize a_size))
+                       (psumf n (fun ci => pmul (pval_used P b n a_size dsize dnum (acol n (tl ct)) ci) (s_in ci)) rin))
+                 (gadget_err P b n rin cols_out msize dsize dnum (acol n (tl ct)) K Sk e))
+           (pscale (2 ^ P) (gadget_int b n rin cols_out msize dsize dnum (acol n (tl ct)) K Sk I)).
+Proof.
+  pose proof (sk_ext_length n sk_out Hn Hsk) as HS.
+  destruct (C03_keyswitch_internal_phase_lemma P b n rin cols_out msize a_size dsize dnum ct K Sk s_in e I
+              Hct HK Hn ltac:(unfold cols_out; lia) Hd Hdrop HS eq_refl Hsin He HI Hb HP HP2 key_row) as [ks [E1 [E2 E3]]].
+  exists ks. split; [exact E1|].
+  rewrite (phase_val_phase_f P b n sk_out ks msize Hn E2) by (intros; apply Hsk, nth_In; assumption).
+  exact E3.
+Qed.
+End C03PhaseVal.
+
+(* ---- the hypotheses of the C03 phase theorems are satisfiable: a concrete small instance (stated as Examples in Props/C03.v) ---- *)
+(* a concrete small key switch: n = 2, rank_in = 1, rank_out = 1, a_size = 2, dsize = 2, dnum = 1, msize = 2, b = 4, P = 8;
+   s_in = X, s_out = 1 + X; the key row encrypts s_in 2^(-2b) without noise in limb 1 of its body column *)
+Definition ex3_ct : cols_t := [[[1; 2]; [3; 4]]; [[5; 6]; [7; 8]]].
+Definition ex3_sk : list (list Z) := [[1; 1]].
+Definition ex3_sin : nat -> list Z := fun _ => [0; 1].
+Definition ex3_K : pmat := fun q c => if Nat.eqb q 0 && Nat.eqb c 2 then [0; 1] else pzero 2.
+Definition ex3_zero : nat -> nat -> list Z := fun _ _ => pzero 2.
+
+Lemma C03_hypotheses_satisfiable_lemma :
+  wf_cols 2 2 2 ex3_ct /\ wf_pmat_in 2 (1 * 1) (2 * 2) ex3_K /\ (1 <= 2)%nat /\ (1 <= 2)%nat /\ (1 <= 2)%nat /\ (2 - 2 <= 2)%nat /\
+  (forall co, length (sk_ext 2 ex3_sk co) = 2%nat) /\ sk_ext 2 ex3_sk 0 = pone 2 /\
+  (forall ci, length (ex3_sin ci) = 2%nat) /\ (forall row ci, length (ex3_zero row ci) = 2%nat) /\
+  0 <= 4 /\ Z.of_nat 2 * 4 <= 8 /\ Z.of_nat 1 * Z.of_nat 2 * 4 <= 8 /\
+  key_rows_ok 8 4 2 1 2 2 2 1 ex3_K (sk_ext 2 ex3_sk) ex3_sin ex3_zero ex3_zero.
+Proof.
+  repeat match goal with |- _ /\ _ => split end; try lia; try reflexivity.
+  - split; [reflexivity|]. intros ci H. destruct ci as [|[|ci]]; [| |lia]; (split; [reflexivity|]); intros l Hl; destruct l as [|[|l]]; try lia; reflexivity.
+  - intros q c Hq Hc. unfold ex3_K. destruct (_ && _); reflexivity.
+  - intros co. destruct co as [|[|co]]; try reflexivity. cbn. destruct co; reflexivity.
+  - intros row ci Hrow Hci. destruct row as [|row]; [|lia]. destruct ci as [|ci]; [|lia]. vm_compute. reflexivity.
+Qed.
+
+(* the model run and both sides of the phase equation on that instance *)
+Lemma C03_instance_runs_lemma :
+  exists ks, keyswitch_internal 2 2 2 (zcols 2 2 2) ex3_ct 2 2 1 2 ex3_K = Some ks /\
+    phase_f 8 4 2 2 2 (limbs_of ks) (sk_ext 2 ex3_sk)
+    = padd (padd (padd (pval 8 4 2 (acol 2 ex3_ct 0) (Nat.min 2 2))
+                       (psumf 2 (fun ci => pmul (pval_used 8 4 2 2 2 1 (acol 2 (tl ex3_ct)) ci) (ex3_sin ci)) 1))
+                 (gadget_err 8 4 2 1 2 2 2 1 (acol 2 (tl ex3_ct)) ex3_K (sk_ext 2 ex3_sk) ex3_zero))
+           (pscale (2 ^ 8) (gadget_int 4 2 1 2 2 2 1 (acol 2 (tl ex3_ct)) ex3_K (sk_ext 2 ex3_sk) ex3_zero)).
+Proof. eexists. split; vm_compute; reflexivity. Qed.
